@@ -325,14 +325,19 @@ func (sv *c19Server) inject(f string) {
 	}
 }
 
-func (sv *c19Server) push(n int, slow bool) {
+func (sv *c19Server) push(n int, slow bool) { sv.pushID(n, slow, "") }
+
+// pushID: id, when given, replaces the generated id (the envelopes of a flood)
+func (sv *c19Server) pushID(n int, slow bool, id string) {
 	s := sv.newest()
 	if s == nil {
 		return
 	}
-	id := fmt.Sprintf("p%d", n)
-	if slow {
-		id = fmt.Sprintf("slow%d", n)
+	if id == "" {
+		id = fmt.Sprintf("p%d", n)
+		if slow {
+			id = fmt.Sprintf("slow%d", n)
+		}
 	}
 	if s.raw != nil {
 		s.write(fmt.Sprintf(`{"id":"%s","from":"%s","event":"received"}`, id, serverNode.String()))
@@ -371,8 +376,13 @@ func c19Run(scn *c19Scn) c19Obs {
 	cfg.NewTransport = factory
 	cfg.Authenticator = lime.GuestAuthenticator
 	mux := &lime.EnvelopeMux{}
+	var handledMu sync.Mutex
+	handled := map[string]bool{}
 	mux.NotificationHandlerFunc(nil, func(ctx context.Context, n *lime.Notification) error {
 		atomic.AddInt32(&notifs, 1)
+		handledMu.Lock()
+		handled[n.ID] = true
+		handledMu.Unlock()
 		if strings.HasPrefix(n.ID, "slow") {
 			// a handler that takes its time: the listener goroutine is busy meanwhile, so whatever the
 			// application does next finds the build lock free
@@ -450,12 +460,23 @@ func c19Run(scn *c19Scn) c19Obs {
 			before := sv.count()
 			waitUntil(2500*time.Millisecond, func() bool { return sv.count() > before })
 			stable(40*time.Millisecond, time.Second)
-		case a == "push" || a == "slowpush":
+		case a == "push" || a == "slowpush" || a == "floodpush":
 			pushN++
-			before := atomic.LoadInt32(&notifs)
-			sv.push(pushN, a == "slowpush")
+			slow := a != "push"
+			sv.push(pushN, slow)
+			want := fmt.Sprintf("p%d", pushN)
+			if slow {
+				want = fmt.Sprintf("slow%d", pushN)
+			}
 			ob.Tag = "push"
-			ob.A = waitUntil(400*time.Millisecond, func() bool { return atomic.LoadInt32(&notifs) > before })
+			ob.A = waitUntil(400*time.Millisecond, func() bool { handledMu.Lock(); defer handledMu.Unlock(); return handled[want] })
+			if a == "floodpush" {
+				// more than the channel's buffers hold, behind the envelope whose handler takes its time: they stay
+				// unread in the transport
+				for i := 0; i < 9; i++ {
+					sv.pushID(pushN, false, fmt.Sprintf("flood%d-%d", pushN, i))
+				}
+			}
 		case a == "watch":
 			c0 := cpuTime()
 			time.Sleep(200 * time.Millisecond)
@@ -537,7 +558,7 @@ func (c *c19Case) coq() string {
 			acts[i] = "ADown"
 		case a == "up":
 			acts[i] = "AUp"
-		case a == "push" || a == "slowpush":
+		case a == "push" || a == "slowpush" || a == "floodpush":
 			acts[i] = "APush"
 		case a == "watch":
 			acts[i] = "AWatch"
@@ -654,7 +675,13 @@ func runC19(env *Env) error {
 		c19Scn{Kind: "mem", Actions: []string{"drain", "fault:eof", "watch", "send", "up", "push", "send"}},
 		c19Scn{Kind: "tcp", Actions: []string{"drain", "fault:finish", "watch", "push", "up", "watch", "push"}},
 		c19Scn{Kind: "ws", Actions: []string{"push", "drain", "fault:eof", "send", "watch", "up", "send", "push"}},
-		c19Scn{Kind: "inproc", Actions: []string{"drain", "fault:fail", "watch", "send", "up", "push"}})
+		c19Scn{Kind: "inproc", Actions: []string{"drain", "fault:fail", "watch", "send", "up", "push"}},
+		// inbound envelopes still unread in the transport when the server drops the connection: sends must fail
+		c19Scn{Kind: "inproc", Actions: []string{"floodpush", "down", "fault:eof", "send", "send", "send", "send", "up", "send", "push"}},
+		c19Scn{Kind: "inproc", Actions: []string{"floodpush", "down", "fault:finish", "send", "send", "send", "up", "push"}},
+		// (not over real sockets: there the first write after the peer closed is accepted by the kernel, and a receiver
+		// held up by full buffers has not read the end of the stream yet - nothing the library could know)
+		c19Scn{Kind: "mem", Actions: []string{"floodpush", "down", "fault:eof", "send", "send", "up", "send"}})
 	nrand := env.Pick(24, 160)
 	for i := 0; i < nrand; i++ {
 		scns = append(scns, genC19(env, kinds[i%len(kinds)], 5+env.Rng.Intn(env.Pick(6, 14))))
